@@ -44,25 +44,24 @@ typedef unsigned __int128 v_u128;
 #endif
 
 /* ---------------------------------------------------------------- checked: int f(T a, T b, T *r) */
-/* FITS: exact result representable (pre-state expression in a, b); EXACT: the exact result in wide arithmetic;
- * WIDE(x): widening cast. *r may be written on failure too (the builtin stores the wrapped value) - the property
+/* FITS: exact result representable (pre-state expression in a, b); EXACT: the exact result in wide arithmetic
+ * (under FITS the narrowing cast (T)EXACT loses nothing). *r may be written on failure too (the builtin stores the wrapped value) - the property
  * does not promise otherwise - but nothing else may be written. */
-#define CONTRACT_CHECKED(NAME, T, FITS, WIDE, EXACT)                                                                   \
+#define CONTRACT_CHECKED(NAME, T, FITS, EXACT)                                                                         \
     AWS_STATIC_IMPL int NAME(T a, T b, T *r)                                                                           \
     __CPROVER_requires(__CPROVER_is_fresh(r, sizeof(*r)))                                                              \
     __CPROVER_assigns(*r)                                                                                              \
     MATH_ERR_ASSIGNS(!(FITS))                                                                                          \
     __CPROVER_ensures(RET == AWS_OP_SUCCESS || RET == AWS_OP_ERR)                                                      \
     __CPROVER_ensures((RET == AWS_OP_SUCCESS) == (FITS))                                                               \
-    __CPROVER_ensures(RET == AWS_OP_SUCCESS ==> WIDE(*r) == (EXACT))                                                   \
+    __CPROVER_ensures(RET == AWS_OP_SUCCESS ==> *r == (T)(EXACT))                                                      \
     MATH_ERR_ENSURES
 
-#define CONTRACT_SATURATING(NAME, T, FITS, WIDE, EXACT, SAT)                                                           \
+#define CONTRACT_SATURATING(NAME, T, FITS, EXACT, SAT)                                                                 \
     AWS_STATIC_IMPL T NAME(T a, T b)                                                                                   \
     __CPROVER_requires(1)                                                                                              \
     __CPROVER_assigns()                                                                                                \
-    __CPROVER_ensures((FITS) ==> WIDE(RET) == (EXACT))                                                                 \
-    __CPROVER_ensures(!(FITS) ==> RET == (SAT))
+    __CPROVER_ensures(RET == ((FITS) ? (T)(EXACT) : (T)(SAT)))
 
 /* exact results */
 #define ADD32_FITS (W64(a) + W64(b) <= UINT32_MAX)
@@ -80,15 +79,15 @@ typedef unsigned __int128 v_u128;
 #define MUL64_EXACT (W128(a) * W128(b))
 
 #define MATH_CONTRACTS_ADD(P)                                                                                          \
-    CONTRACT_CHECKED(P##aws_add_u32_checked, uint32_t, ADD32_FITS, W64, ADD32_EXACT);                                  \
-    CONTRACT_CHECKED(P##aws_add_u64_checked, uint64_t, ADD64_FITS, W128, ADD64_EXACT);                                 \
-    CONTRACT_SATURATING(P##aws_add_u32_saturating, uint32_t, ADD32_FITS, W64, ADD32_EXACT, UINT32_MAX);                \
-    CONTRACT_SATURATING(P##aws_add_u64_saturating, uint64_t, ADD64_FITS, W128, ADD64_EXACT, UINT64_MAX)
+    CONTRACT_CHECKED(P##aws_add_u32_checked, uint32_t, ADD32_FITS, ADD32_EXACT);                                  \
+    CONTRACT_CHECKED(P##aws_add_u64_checked, uint64_t, ADD64_FITS, ADD64_EXACT);                                 \
+    CONTRACT_SATURATING(P##aws_add_u32_saturating, uint32_t, ADD32_FITS, ADD32_EXACT, UINT32_MAX);                \
+    CONTRACT_SATURATING(P##aws_add_u64_saturating, uint64_t, ADD64_FITS, ADD64_EXACT, UINT64_MAX)
 #define MATH_CONTRACTS_MUL(P)                                                                                          \
-    CONTRACT_CHECKED(P##aws_mul_u32_checked, uint32_t, MUL32_FITS, W64, MUL32_EXACT);                                  \
-    CONTRACT_CHECKED(P##aws_mul_u64_checked, uint64_t, MUL64_FITS, W128, MUL64_EXACT);                                 \
-    CONTRACT_SATURATING(P##aws_mul_u32_saturating, uint32_t, MUL32_FITS, W64, MUL32_EXACT, UINT32_MAX);                \
-    CONTRACT_SATURATING(P##aws_mul_u64_saturating, uint64_t, MUL64_FITS, W128, MUL64_EXACT, UINT64_MAX)
+    CONTRACT_CHECKED(P##aws_mul_u32_checked, uint32_t, MUL32_FITS, MUL32_EXACT);                                  \
+    CONTRACT_CHECKED(P##aws_mul_u64_checked, uint64_t, MUL64_FITS, MUL64_EXACT);                                 \
+    CONTRACT_SATURATING(P##aws_mul_u32_saturating, uint32_t, MUL32_FITS, MUL32_EXACT, UINT32_MAX);                \
+    CONTRACT_SATURATING(P##aws_mul_u64_saturating, uint64_t, MUL64_FITS, MUL64_EXACT, UINT64_MAX)
 
 /* ---------------------------------------------------------------- leading / trailing zero counts: size_t f(T n)
  * mathematical definition, bit level: clz(n) = c  <=>  the top c bits are 0 and bit BITS-1-c is 1 (c = BITS when n == 0)
@@ -126,18 +125,18 @@ MATH_CONTRACTS_MUL();
 MATH_CONTRACTS_BITS();
 
 /* math.inl: subtraction */
-CONTRACT_CHECKED(aws_sub_u32_checked, uint32_t, SUB32_FITS, W64, SUB32_EXACT);
-CONTRACT_CHECKED(aws_sub_u64_checked, uint64_t, SUB64_FITS, W128, SUB64_EXACT);
-CONTRACT_SATURATING(aws_sub_u32_saturating, uint32_t, SUB32_FITS, W64, SUB32_EXACT, 0);
-CONTRACT_SATURATING(aws_sub_u64_saturating, uint64_t, SUB64_FITS, W128, SUB64_EXACT, 0);
+CONTRACT_CHECKED(aws_sub_u32_checked, uint32_t, SUB32_FITS, SUB32_EXACT);
+CONTRACT_CHECKED(aws_sub_u64_checked, uint64_t, SUB64_FITS, SUB64_EXACT);
+CONTRACT_SATURATING(aws_sub_u32_saturating, uint32_t, SUB32_FITS, SUB32_EXACT, 0);
+CONTRACT_SATURATING(aws_sub_u64_saturating, uint64_t, SUB64_FITS, SUB64_EXACT, 0);
 
 /* math.inl: size_t dispatch (LP64: size_t is the 64-bit case) */
-CONTRACT_CHECKED(aws_add_size_checked, size_t, ADD64_FITS, W128, ADD64_EXACT);
-CONTRACT_CHECKED(aws_sub_size_checked, size_t, SUB64_FITS, W128, SUB64_EXACT);
-CONTRACT_CHECKED(aws_mul_size_checked, size_t, MUL64_FITS, W128, MUL64_EXACT);
-CONTRACT_SATURATING(aws_add_size_saturating, size_t, ADD64_FITS, W128, ADD64_EXACT, SIZE_MAX);
-CONTRACT_SATURATING(aws_sub_size_saturating, size_t, SUB64_FITS, W128, SUB64_EXACT, 0);
-CONTRACT_SATURATING(aws_mul_size_saturating, size_t, MUL64_FITS, W128, MUL64_EXACT, SIZE_MAX);
+CONTRACT_CHECKED(aws_add_size_checked, size_t, ADD64_FITS, ADD64_EXACT);
+CONTRACT_CHECKED(aws_sub_size_checked, size_t, SUB64_FITS, SUB64_EXACT);
+CONTRACT_CHECKED(aws_mul_size_checked, size_t, MUL64_FITS, MUL64_EXACT);
+CONTRACT_SATURATING(aws_add_size_saturating, size_t, ADD64_FITS, ADD64_EXACT, SIZE_MAX);
+CONTRACT_SATURATING(aws_sub_size_saturating, size_t, SUB64_FITS, SUB64_EXACT, 0);
+CONTRACT_SATURATING(aws_mul_size_saturating, size_t, MUL64_FITS, MUL64_EXACT, SIZE_MAX);
 
 /* math.inl: power-of-two test and rounding.
  * g_pow_k is a ghost exponent: "x is a power of two" <=> exists k. x == 2^k, stated for one arbitrary k:
